@@ -14,7 +14,7 @@ use std::sync::{Arc, Mutex};
 
 pub struct PackIngest;
 const P: &str = "C10";
-const PACKS: &[&str] = &["full-ref", "full-ofs", "full-nodelta", "thin", "small"];
+const PACKS: &[&str] = &["full-ref", "full-ofs", "full-nodelta", "thin", "small", "thin-wide-w4-w0", "thin-wide-w2-w0", "thin-wide-w4-w2", "thin-wide-w3-w1", "thin-wide-w1-w0", "thin-wide-w4-w3"];
 
 #[derive(Clone, Debug, Serialize, Deserialize)]
 pub struct Workload {
@@ -25,6 +25,9 @@ pub struct Workload {
     pub bufread_cap: usize,
     pub plan: IoPlan,
     pub crash_points: bool,
+    /// destructive: the header's object count is rewritten: 1 = to zero, 2 = one less, 3 = one more
+    #[serde(default)]
+    pub count_fault: u8,
     pub sched: Value,
 }
 
@@ -46,11 +49,37 @@ for c in 1 2 3 4 5 6 7; do
   git tag c$c
 done
 GIT_COMMITTER_DATE="1700000009 +0000" git tag -a -m "tag" v1
-git cat-file --batch-all-objects --batch > ../universe.bin
 mkdir ../packs
 git pack-objects -q --all --window=10 --depth=10 --stdout < /dev/null > ../packs/full-ref.pack
 git pack-objects -q --all --window=10 --depth=10 --delta-base-offset --stdout < /dev/null > ../packs/full-ofs.pack
 git pack-objects -q --all --window=0 --stdout < /dev/null > ../packs/full-nodelta.pack
+# a second, wide history (many directories, hence many trees per commit): in its thin pack, bases that the receiver
+# inserts sit between ofs-deltas and their bases, so that distances cross the 7-bit boundaries of the offset encoding
+git checkout -q --orphan wide; git rm -rfq .
+text() { awk -v s="$1" -v n="$2" 'BEGIN{ x=s; for(i=0;i<n;i++){ x=(x*1103515245+12345)%2147483648; y=(x*69069+1)%2147483648; z=(y*1103515245+12345)%2147483648; printf "%08x %08x %08x %08x %08x %08x %08x %08x line %d of a file in the wide history\n", x, y, z, (x+y)%2147483648, (x+z)%2147483648, (y+z)%2147483648, (x*3+y)%2147483648, (z*5+x)%2147483648, i } }'; }
+idx=0
+for g in 1 2 3 4 5 6 7 8; do s=0; while [ $s -lt $g ]; do mkdir -p g$g/s$s; for f in 0 1; do idx=$((idx+1)); text $((idx*7919)) $((8 + idx % 13)) > g$g/s$s/f$f.txt; done; s=$((s+1)); done; done
+git add -A; GIT_AUTHOR_DATE="1700000100 +0000" GIT_COMMITTER_DATE="1700000100 +0000" git commit -q -m w0; git branch w0
+for round in 1 2 3 4; do
+  idx=0
+  for f in g*/s*/f0.txt; do idx=$((idx+1)); n=$(wc -l < $f); at=$(( (idx * 31 + round * 17) % n + 1 ))
+    sed -i "${at}s/.*/changed in round $round file $idx $(printf '%08x' $((idx*round*2654435761 % 4294967296)))/" $f
+    [ $((round % 2)) -eq 1 ] && echo "appended in round $round to $idx" >> $f
+  done
+  git add -A; GIT_AUTHOR_DATE="170000010$round +0000" GIT_COMMITTER_DATE="170000010$round +0000" git commit -q -m w$round; git branch w$round
+done
+for b in w0 w1 w2 w3; do
+  git init -q --bare ../base-wide-$b
+  printf "$b\n" | git pack-objects -q --revs ../base-wide-$b/objects/pack/pack > /dev/null
+done
+for pair in w4-w0 w2-w0 w4-w2 w3-w1 w1-w0 w4-w3; do
+  tip=${pair%-*}; excl=${pair#*-}
+  printf "$tip\n^$excl\n" | git pack-objects -q --revs --thin --delta-base-offset --stdout > ../packs/thin-wide-$pair.pack
+  mkdir ../expect-thin-wide-$pair
+  git rev-list --objects $tip ^$excl | cut -d' ' -f1 | sort > ../expect-thin-wide-$pair/ids.txt
+done
+git checkout -q master 2>/dev/null || git checkout -q main
+git cat-file --batch-all-objects --batch > ../universe.bin
 printf 'c7\n^c4\n' | git pack-objects -q --revs --thin --window=10 --delta-base-offset --stdout > ../packs/thin.pack
 printf 'c2\n' | git pack-objects -q --revs --window=10 --stdout > ../packs/small.pack
 # the base repository for the thin pack: everything reachable from c4
@@ -98,7 +127,7 @@ fn ingest(w: Workload, pack_bytes: Vec<u8>, dir: std::path::PathBuf, base_object
         object_hash: gix_hash::Kind::Sha1,
     };
     fsx::set_phase(Some("ingest".into()));
-    let res = if PACKS[w.pack] == "thin" {
+    let res = if PACKS[w.pack].starts_with("thin") {
         match gix_odb::at(base_objects) {
             Ok(handle) => gix_pack::Bundle::write_to_directory(&mut br, Some(&dir), &mut progress, &interrupt, Some(handle), opts),
             Err(e) => {
@@ -179,17 +208,19 @@ fn generate(seed: u64, tier: Tier) -> Workload {
     let destructive = r.chance(350);
     let crash_points = !destructive && r.chance(120);
     let mut plan = IoPlan { max_chunk: *r.pick(&[0usize, 1, 7, 64, 4096, 70_000]), intr_permille: 0, ..Default::default() };
+    let mut count_fault = 0u8;
     if destructive {
         // positions are drawn relative to the pack length at execution time via permille (stored scaled by 1000)
         let at = r.below(1001);
-        match r.below(3) {
-            0 => plan.eof_at = Some(at),
-            1 => plan.err_at = Some(at),
-            _ => plan.flip_at = Some((at, 1 << r.below(8))),
+        match r.below(7) {
+            0 | 1 => plan.eof_at = Some(at),
+            2 | 3 => plan.err_at = Some(at),
+            4 | 5 => plan.flip_at = Some((at, 1 << r.below(8))),
+            _ => count_fault = 1 + r.below(3) as u8,
         }
     }
     let _ = tier;
-    Workload { pack, thread_limit: *r.pick(&[1usize, 1, 2, 3, 4, 8, 16]), mode: if destructive { 0 } else { *r.pick(&[0u8, 0, 0, 1, 2]) }, bufread_cap: *r.pick(&[1usize, 13, 4096, 65_536]), plan, crash_points, sched: super::swarm_policy_edges(&mut sw, 400, 30_000) }
+    Workload { pack, thread_limit: *r.pick(&[1usize, 1, 2, 3, 4, 8, 16]), mode: if destructive { 0 } else { *r.pick(&[0u8, 0, 0, 1, 2]) }, bufread_cap: *r.pick(&[1usize, 13, 4096, 65_536]), plan, crash_points, count_fault, sched: super::swarm_policy_edges(&mut sw, 400, 30_000) }
 }
 
 impl Scenario for PackIngest {
@@ -228,7 +259,16 @@ impl Scenario for PackIngest {
             }
         };
         let name = PACKS[w.pack % PACKS.len()];
-        let pack_bytes = std::fs::read(ctx.worker_dir.join(format!("packs/{name}.pack"))).expect("fixture pack");
+        let mut pack_bytes = std::fs::read(ctx.worker_dir.join(format!("packs/{name}.pack"))).expect("fixture pack");
+        if w.count_fault != 0 {
+            let n = u32::from_be_bytes(pack_bytes[8..12].try_into().unwrap());
+            let m = match w.count_fault {
+                1 => 0,
+                2 => n.saturating_sub(1),
+                _ => n + 1,
+            };
+            pack_bytes[8..12].copy_from_slice(&m.to_be_bytes());
+        }
         // resolve permille positions to absolute offsets (biased to header, trailer and the middle)
         let len = pack_bytes.len() as u64;
         let abs = |pm: u64| -> u64 {
@@ -238,7 +278,7 @@ impl Scenario for PackIngest {
                 _ => pm * len / 1000,
             }
         };
-        let destructive = !w.plan.benign();
+        let destructive = !w.plan.benign() || w.count_fault != 0;
         if let Some(e) = w.plan.eof_at {
             w.plan.eof_at = Some(abs(e).min(len - 1));
         }
@@ -258,7 +298,7 @@ impl Scenario for PackIngest {
         let dir = live.join("pack");
         std::fs::create_dir_all(&dir).unwrap();
         // the thin pack's base repository is copied into the sandbox (its object directory is only read)
-        let base_objects = ctx.worker_dir.join("base/objects");
+        let base_objects = ctx.worker_dir.join(match name.strip_prefix("thin-wide-") { Some(pair) => format!("base-wide-{}/objects", pair.rsplit('-').next().unwrap_or("w0")), None => "base/objects".to_string() });
         fsx::configure(fsx::FsCfg { root: live.to_string_lossy().into_owned(), stamp: true, snapshot: w.crash_points, ..Default::default() });
         let mut cfg = ctx.rt_cfg();
         super::apply_swarm(&mut cfg, wv);
@@ -295,16 +335,16 @@ impl Scenario for PackIngest {
                 Some(Ok((idx_path, data_path, n))) => {
                     if destructive {
                         // a flipped bit may land in the 20 trailer bytes of a *thin* pack (re-written anyway) — otherwise it must be rejected
-                        let flip_in_thin_trailer = name == "thin" && w.plan.flip_at.map_or(false, |(at, _)| at + 20 >= len);
+                        let flip_in_thin_trailer = name.starts_with("thin") && w.plan.flip_at.map_or(false, |(at, _)| at + 20 >= len);
                         if !flip_in_thin_trailer {
-                            rep.violate(P, format!("pack accepted-corrupt-stream {shape} fault={}", if w.plan.eof_at.is_some() { "eof" } else if w.plan.err_at.is_some() { "error" } else { "flip" }), format!("plan {:?} on a {len}-byte pack was accepted with {n} objects", w.plan));
+                            rep.violate(P, format!("pack accepted-corrupt-stream {shape} fault={}", if w.count_fault != 0 { ["", "count-zero", "count-minus-one", "count-plus-one"][w.count_fault as usize] } else if w.plan.eof_at.is_some() { "eof" } else if w.plan.err_at.is_some() { "error" } else { "flip" }), format!("plan {:?} count_fault={} on a {len}-byte pack was accepted with {n} objects", w.plan, w.count_fault));
                         }
                     } else if w.mode != 2 {
                         let uni = universe(&ctx.worker_dir);
                         match (idx_path, data_path) {
                             (Some(ip), Some(dp)) => {
                                 let ids = read_ids(&ctx.worker_dir.join(format!("expect-{name}/ids.txt")));
-                                let rewritten = name == "thin" || name == "full-ref" || name == "small";
+                                let rewritten = name.starts_with("thin") || name == "full-ref" || name == "small";
                                 if !rewritten {
                                     let want_idx = std::fs::read(ctx.worker_dir.join(format!("expect-{name}/in.idx"))).unwrap_or_default();
                                     let got_idx = std::fs::read(&ip).unwrap_or_default();
@@ -370,6 +410,9 @@ impl Scenario for PackIngest {
         if w.plan.max_chunk != 0 {
             rep.fault("stream-chunked");
         }
+        if w.count_fault != 0 {
+            rep.fault(["", "header-count-zero", "header-count-minus-one", "header-count-plus-one"][w.count_fault as usize]);
+        }
         rep.ops = 1;
         rep.nontrivial = true;
         let st = Fnv::of(format!("{shape} mode={} cap={}", w.mode, w.bufread_cap).as_bytes());
@@ -405,7 +448,7 @@ impl Scenario for PackIngest {
         out.into_iter().map(|c| serde_json::to_value(c).unwrap()).collect()
     }
     fn rule(&self, _p: &str) -> String {
-        "5 packs made by git pack-objects (full with ref-deltas, full with ofs-deltas, full without deltas, thin against a base repository, small) x thread limits {1,2,3,4,8,16} x iteration modes x BufRead capacities x stream plans (chunking, Interrupted; EOF / error / bit flip at an offset biased to header, trailer and middle) x crash points at every file-system mutation x seeded thread schedules; non-trivial = every run; distinct = distinct (workload, decision list)".into()
+        "6 packs made by git pack-objects (full with ref-deltas, full with ofs-deltas, full without deltas, thin against a base repository, small, thin over a wide history of 45 trees per commit where inserted bases push ofs-delta distances across the 7-bit encoding boundaries) x thread limits {1,2,3,4,8,16} x iteration modes x BufRead capacities x stream plans (chunking, Interrupted; EOF / error / bit flip at an offset biased to header, trailer and middle) x crash points at every file-system mutation x seeded thread schedules; non-trivial = every run; distinct = distinct (workload, decision list)".into()
     }
     fn real_stub(&self) -> Value {
         json!({
